@@ -24,7 +24,7 @@ Every box is a stage model with its own property, theorems and driver kind (`tok
                      `single_result = output.updated`, the LIMIT break; a table that is not defined is asked for by the
                      first line that is executed (`TableNotFound`)
 * `termItems`        what reaches the terminal: `ESC[2J ESC[1;1H` (`clear`) and the printer's lines; ONE `OutputPrinter`
-                     for the whole run (its CSV `first_line` state survives the clears)
+                     for the whole run, told `start_table()` after every clear (a CSV header on every refreshed table)
 -/
 namespace Sqlgrep.Pipeline
 open Sqlgrep Sqlgrep.Extract
@@ -109,12 +109,14 @@ inductive TermItem where
   | line (bs : Print.Bytes)        -- one `println!` of the printer
   deriving Repr, DecidableEq, Inhabited
 
-/-- the print calls of a follow run on the terminal: a call with `output.updated` clears the screen first; the one
-`OutputPrinter` keeps its `first_line` state across the calls -/
+/-- the print calls of a follow run on the terminal: a call with `output.updated` clears the screen first and starts a
+new table on the one `OutputPrinter` of the run (`start_table()`: `first_line = true`, so a CSV header precedes the
+first record of every refreshed table — /repo e80a2b6, the repair of D65); between two clears the printer keeps its
+`first_line` state -/
 def termItems (o : Print.RealOracle) (fmt : Print.Format) : Bool → List PrintCall → List TermItem
   | _, [] => []
   | first, c :: rest =>
-    let r := Print.printResult o fmt first (toResultRow c.result) c.final
+    let r := Print.printResult o fmt (c.final || first) (toResultRow c.result) c.final
     (if c.final then [TermItem.clear] else []) ++ r.1.map (fun l => TermItem.line l.bytes) ++ termItems o fmt r.2 rest
 
 /-- the screens: what was written before the first clear, and then what each clear was followed by -/
